@@ -81,6 +81,10 @@ def gen_case(rnd, tier: str, i: Any) -> Dict[str, Any]:
         if rnd.random() < 0.3:
             gen_sim.add_device_spans(rnd, tr)        # GPU-side annotations / profiler ranges on the kernels' streams
         files[f"rank{r}.json"] = tr
+    if n_ranks > 1 and rnd.random() < 0.3:
+        # every later rank repeats rank 0's vocabulary in another order of first appearance
+        for r in range(1, n_ranks):
+            files[f"rank{r}.json"] = gen_sim.clone_reordered(rnd, files["rank0.json"], r)
     # thresholds are completed in run_case from the actual gaps (they depend on the loaded view)
     return {"files": files, "cfg": {"rank_sel": rnd.random(), "stream_sel": rnd.random(), "thr_sel": rnd.random(), "thr_mode": rnd.choice(["gap", "gap", "gap+1", "0", "1", "30", "1e9"]),
                                     "stats": rnd.random() < 0.5},
